@@ -133,6 +133,10 @@ pub struct Director {
     hidden: Option<(u64, usize)>,
     hidden_lossy_views: u64,
     hidden_loss_pct: u64,
+    /// hidden-commit cases in which correct voters of the hidden view are restarted right after their vote left the node
+    /// (before their next state change): what they report about that vote afterwards comes from the durable state alone
+    hidden_restart_pct: u32,
+    hidden_restarted: Vec<usize>,
     /// (view, payload x, payload y, nodes that only get to see votes for x)
     steer: Option<(u64, validator::PayloadHash, validator::PayloadHash, Vec<usize>)>,
     res: CaseResult,
@@ -163,6 +167,8 @@ impl Director {
             hidden: None,
             hidden_lossy_views: 0,
             hidden_loss_pct: 0,
+            hidden_restart_pct: 0,
+            hidden_restarted: vec![],
             steer: None,
             laggard: None,
             twin_said: BTreeMap::new(),
@@ -385,6 +391,20 @@ impl Director {
                 let (id, dest, from) = self.net.inflight.remove(k);
                 if !self.hidden_filter(id, dest, from) {
                     self.count("hidden_commit_suppressed");
+                    if let Some((hv, lucky)) = self.hidden {
+                        let voter = self.net.msgs[id].key.clone();
+                        let me = (0..self.c.n()).find(|i| self.c.sk[*i].public() == voter);
+                        if let Some(from) = me {
+                            if kind_of(&self.net.msgs[id]) == (1, hv) && from != lucky && !self.c.byz[from] && !self.hidden_restarted.contains(&from) && self.w.node(from).alive {
+                                self.hidden_restarted.push(from);
+                                if self.rng.gen_range(0..100) < self.hidden_restart_pct {
+                                    self.w.kill(from).await;
+                                    self.w.start(from).await;
+                                    self.count("hidden_commit_voters_restarted_right_after_their_vote");
+                                }
+                            }
+                        }
+                    }
                 } else if self.rng.gen_bool(pol.p_drop) {
                     self.count("dropped");
                 } else {
@@ -741,6 +761,7 @@ impl Director {
             self.hidden = Some((hv, *correct.choose(&mut self.rng).unwrap()));
             self.hidden_lossy_views = self.rng.gen_range(0..5);
             self.hidden_loss_pct = self.rng.gen_range(20..70);
+            self.hidden_restart_pct = [0, 0, 60, 100][self.rng.gen_range(0..4)];
         }
         if self.pol.laggard || self.pol.poisoned_laggard {
             let wsum = |v: &[usize]| v.iter().map(|i| self.c.w[*i] as u128).sum::<u128>();
